@@ -18,7 +18,7 @@ RULE = ("seeded swarm in which every bundle has a water table (constant, multi-d
         "capillary rise never above adjusted field capacity (per-process ledger), table depth against an independent series model; "
         "twin modes: no table => CR = GwIn = 0; a table at 50 m => all tables equal to the no-table twin except z_gw. Non-trivial "
         "run: capillary rise or groundwater inflow occurred, or the table was inside the profile; distinct = distinct configuration signatures")
-PROFILE = {"gw": 1.0, "gw_depths": [0.15, 0.2, 0.25, 0.3, 0.45, 0.55, 0.75, 0.95, 1.0, 1.05, 1.15, 1.2, 1.5, 2.0, 2.5, 3.5, 6.0, 15.0],
+PROFILE = {"reactive_p": 0.3, "gw": 1.0, "gw_depths": [0.15, 0.2, 0.25, 0.3, 0.45, 0.55, 0.75, 0.95, 1.0, 1.05, 1.15, 1.2, 1.5, 2.0, 2.5, 3.5, 6.0, 15.0],
            "custom_soil_p": 0.3, "irr_methods": [0, 1, 2, 3, 4, 5], "events_per_year": 1.5, "n_seasons": [1, 1, 2], "off_season_p": 0.6}
 
 
